@@ -296,7 +296,7 @@ impl SqlPrinter {
     }
 
     /// Returns (sql text of the from item, column texts of its row).
-    fn from_item(&mut self, f: &From, outer: &[Vec<String>]) -> (String, Vec<String>) {
+    pub fn from_item(&mut self, f: &From, outer: &[Vec<String>]) -> (String, Vec<String>) {
         match f {
             From::Table(n, w) => {
                 let a = self.alias();
@@ -531,7 +531,7 @@ impl<'a> Gen<'a> {
     }
 
     /// A column of the wanted type, preferring the innermost scope; None when there is none.
-    fn column(&mut self, ty: Ty, scopes: &[Vec<Ty>]) -> Option<Expr> {
+    pub fn column(&mut self, ty: Ty, scopes: &[Vec<Ty>]) -> Option<Expr> {
         let d = if scopes.len() > 1 && self.r.chance(1, 3) { 1 } else { 0 };
         for dd in [d, 0, 1] {
             let c = self.cols_of(scopes, dd, ty);
@@ -620,7 +620,7 @@ impl<'a> Gen<'a> {
         }
     }
 
-    fn case(&mut self, ty: Ty, scopes: &[Vec<Ty>], d: usize) -> Expr {
+    pub fn case(&mut self, ty: Ty, scopes: &[Vec<Ty>], d: usize) -> Expr {
         let n = 1 + self.r.below(2);
         let ws = (0..n).map(|_| (self.expr(Ty::Bool, scopes, d.min(1)), self.expr(ty, scopes, d.min(1)))).collect();
         let els = if self.r.chance(2, 3) { Some(Box::new(self.expr(ty, scopes, 0))) } else { None };
@@ -628,7 +628,7 @@ impl<'a> Gen<'a> {
     }
 
     /// A scalar subquery guaranteed to return exactly one row: an aggregate query without GROUP BY.
-    fn scalar_sub(&mut self, ty: Ty, outer: &[Vec<Ty>], d: usize) -> Expr {
+    pub fn scalar_sub(&mut self, ty: Ty, outer: &[Vec<Ty>], d: usize) -> Expr {
         let (from, types) = self.from_list(outer, d, 1);
         let mut scopes = vec![types];
         scopes.extend_from_slice(outer);
@@ -655,7 +655,7 @@ impl<'a> Gen<'a> {
         })))
     }
 
-    fn from_list(&mut self, outer: &[Vec<Ty>], d: usize, max: usize) -> (Vec<From>, Vec<Ty>) {
+    pub fn from_list(&mut self, outer: &[Vec<Ty>], d: usize, max: usize) -> (Vec<From>, Vec<Ty>) {
         let n = 1 + self.r.below(max as u64) as usize;
         let mut items = Vec::new();
         let mut types = Vec::new();
@@ -667,13 +667,13 @@ impl<'a> Gen<'a> {
         (items, types)
     }
 
-    fn base_table(&mut self) -> (From, Vec<Ty>) {
+    pub fn base_table(&mut self) -> (From, Vec<Ty>) {
         let n = self.r.below(self.db.tables.len() as u64) as usize;
         let cols = self.db.tables[n].cols.clone();
         (From::Table(n, cols.len()), cols)
     }
 
-    fn from_item(&mut self, outer: &[Vec<Ty>], d: usize) -> (From, Vec<Ty>) {
+    pub fn from_item(&mut self, outer: &[Vec<Ty>], d: usize) -> (From, Vec<Ty>) {
         match self.r.below(10) {
             0..=1 if self.cfg.subqueries && d > 0 => {
                 let nt = 1 + self.r.below(2) as usize;
@@ -704,7 +704,7 @@ impl<'a> Gen<'a> {
     }
 
     /// A SELECT producing columns of the given types (used for IN/EXISTS subqueries and derived tables).
-    fn sub_select(&mut self, tys: Vec<Ty>, outer: &[Vec<Ty>], d: usize, allow_group: bool) -> Query {
+    pub fn sub_select(&mut self, tys: Vec<Ty>, outer: &[Vec<Ty>], d: usize, allow_group: bool) -> Query {
         let (from, types) = self.from_list(outer, d, 1);
         let mut scopes = vec![types];
         scopes.extend_from_slice(outer);
@@ -995,9 +995,9 @@ pub fn from_base_tables(from: &[From]) -> Vec<usize> {
     v
 }
 
-/// Known class `selfjoin-3way-order-by` (KNOWN_FINDINGS): a SELECT (at any nesting level) whose FROM
-/// references three or more tables, one base table more than once, and that has an ORDER BY.
-pub fn has_selfjoin_3way_order_by(q: &Query) -> bool {
+/// Known class `selfjoin-3way` (KNOWN_FINDINGS): a SELECT (at any nesting level) whose FROM
+/// references three or more tables, one base table more than once, (with or without ORDER BY).
+pub fn has_selfjoin_3way(q: &Query) -> bool {
     fn in_expr(e: &Expr) -> bool {
         match e {
             Expr::Col(..) | Expr::Const(_) => false,
@@ -1007,25 +1007,25 @@ pub fn has_selfjoin_3way_order_by(q: &Query) -> bool {
             Expr::InList(a, l, _) => in_expr(a) || l.iter().any(in_expr),
             Expr::Case(ws, els) => ws.iter().any(|(c, t)| in_expr(c) || in_expr(t)) || els.as_ref().map(|e| in_expr(e)).unwrap_or(false),
             Expr::Coalesce(l) => l.iter().any(in_expr),
-            Expr::Scalar(q) | Expr::Exists(q, _) => has_selfjoin_3way_order_by(q),
-            Expr::InSub(a, q, _) => in_expr(a) || has_selfjoin_3way_order_by(q),
+            Expr::Scalar(q) | Expr::Exists(q, _) => has_selfjoin_3way(q),
+            Expr::InSub(a, q, _) => in_expr(a) || has_selfjoin_3way(q),
         }
     }
     fn in_from(f: &From) -> bool {
         match f {
             From::Table(..) => false,
-            From::Sub(q, _) => has_selfjoin_3way_order_by(q),
+            From::Sub(q, _) => has_selfjoin_3way(q),
             From::Join(_, l, r, on) => in_from(l) || in_from(r) || in_expr(on),
         }
     }
     match q {
-        Query::SetOp(_, _, l, r) => has_selfjoin_3way_order_by(l) || has_selfjoin_3way_order_by(r),
+        Query::SetOp(_, _, l, r) => has_selfjoin_3way(l) || has_selfjoin_3way(r),
         Query::Select(s) => {
             let t = from_base_tables(&s.from);
             let mut sorted: Vec<usize> = t.iter().cloned().filter(|x| *x != usize::MAX).collect();
             sorted.sort();
             let repeated = sorted.windows(2).any(|w| w[0] == w[1]);
-            (t.len() >= 3 && repeated && !s.order.is_empty())
+            (t.len() >= 3 && repeated)
                 || s.from.iter().any(in_from)
                 || s.where_.as_ref().map(in_expr).unwrap_or(false)
                 || s.having.as_ref().map(in_expr).unwrap_or(false)
